@@ -55,7 +55,7 @@ SHARD_TIMEOUT = {"quick": 900, "thorough": 5400}
 BEHAVIOURS = [
     "exact", "exact-chunked", "exact-trailers", "surplus-garbage", "surplus-response", "unsolicited", "unsolicited-partial", "interim-100", "interim-103",
     "truncated-close", "close-mid-head", "close-after", "says-close-stays-open", "says-keepalive-closes", "no-length", "early-response", "head-only-slow",
-    "http10", "http10-keepalive", "status-204", "status-304",
+    "http10", "http10-keepalive", "status-204", "status-304", "expect100-final-without-100", "expect100-ok",
 ]
 DELAYS = [0.0, 0.2, 0.7, 1.3]  # same segment / while the caller still reads / while idle in the pool / after the next request went out
 MODES = ["read", "read-slow", "release-unread", "close", "ignore-body", "cancel", "timeout"]
@@ -114,6 +114,14 @@ class Peer(asyncio.Protocol):
                         self._early_done = pm.start
                         w.note_request(k, self.tidx)
                         self.respond(k, early=True)
+                    elif k is not None and w.case["reqs"][k]["beh"] == "expect100-final-without-100":
+                        # final answer right away, no "100 Continue"; the announced body is never read
+                        self._early_done = pm.start
+                        w.note_request(k, self.tidx)
+                        self.respond(k, early=True)
+                    elif k is not None and w.case["reqs"][k]["beh"] == "expect100-ok" and getattr(self, "_cont_sent", None) != pm.start:
+                        self._cont_sent = pm.start
+                        self.send(b"HTTP/1.1 100 Continue\r\n\r\n", ("resp", k))
                 return
             except R.Reject as r:
                 w.log.append(("peer-bad-request", self.tidx, r.cls))
@@ -313,6 +321,10 @@ def run_case(case, rec, seed=0):
         if spec["beh"] == "early-response":
             kw["data"] = b"D" * 200000
             meth = "POST"
+        elif spec["beh"].startswith("expect100"):
+            kw["data"] = b"E" * 100
+            kw["expect100"] = True
+            meth = "POST"
         else:
             meth = "GET"
         if mode == "timeout":
@@ -454,6 +466,26 @@ def run_case(case, rec, seed=0):
             if mj == "close" and rj.get("conn_at_close"):
                 v.append(("reuse-after-taint:client-close", f"request {k} reuses transport {ti} after response {j} was closed"))
                 break
+    # a request whose announced body was not (fully) sent leaves the connection unusable: the peer reads the next
+    # request as that body.  Read what the client wrote on each transport with the reference reader.
+    for ti, pipe in enumerate(w.pipes):
+        sent = bytes(pipe.a.written)
+        on_ti = sorted(k for k, (t, _i) in first_write.items() if t == ti)
+        if len(on_ti) < 2:
+            continue
+        try:
+            msgs, end = R.read_requests(sent, stop_after_close=False, upgrade_tunnels=False)
+        except Exception:  # noqa
+            continue
+        seen_ids = []
+        for m in msgs + ([end[3]] if end[0] == "incomplete" and isinstance(end[3], R.Msg) else []):
+            rid = Peer._rid(m)
+            if rid is not None:
+                seen_ids.append(rid)
+        missing = [k for k in on_ti if k not in seen_ids]
+        if missing:
+            prev = max(j for j in on_ti if j < missing[0]) if any(j < missing[0] for j in on_ti) else None
+            v.append(("reuse-after-taint:request-body-not-fully-sent", f"request {missing[0]} was written to transport {ti} inside the announced body of request {prev} ({reqs[prev]['beh'] if prev is not None else '?'}), which the client never finished sending"))
     # provenance
     for k, res in out.items():
         if not isinstance(k, int):
